@@ -155,6 +155,9 @@ def gen_unicode() -> str:
     sp = ranges(str.isspace)
     dg = ranges(str.isdigit)
     al = ranges(str.isalnum)
+    import re as _re
+
+    dec = ranges(lambda c: _re.fullmatch(r"\d", c) is not None)
     # str.splitlines boundaries
     lb = [cp for cp in range(0x3000) if len((chr(cp) + "x").splitlines()) == 2 or chr(cp) in "\r\n"]
     lb = sorted(set(lb))
@@ -177,8 +180,10 @@ def gen_unicode() -> str:
         "def alnumRanges : List (Nat × Nat) := %s\n\n"
         "/-- code points at which `str.splitlines()` breaks a line -/\n"
         "def lineBreaks : List Nat := %s\n\n"
+        "/-- code point ranges matched by the regular expression `\\d` (str patterns) -/\n"
+        "def decimalRanges : List (Nat × Nat) := %s\n\n"
         "end Dippy.Generated\n"
-    ) % (unicodedata.unidata_version, fmt(sp), fmt(dg), fmt(al), "[" + ", ".join(map(str, lb)) + "]")
+    ) % (unicodedata.unidata_version, fmt(sp), fmt(dg), fmt(al), "[" + ", ".join(map(str, lb)) + "]", fmt(dec))
 
 
 # ---------------------------------------------------------------- analyzer tables
@@ -213,6 +218,22 @@ def gen_tables() -> str:
                 MISSING.append("_WRAPPER_FLAGS_WITH_ARG entry")
     else:
         MISSING.append("_WRAPPER_FLAGS_WITH_ARG")
+
+    # the wrapper loop's DURATION test: `base == "<cmd>" and _TIMEOUT_DURATION.fullmatch(token)`
+    dur_cmds: list[str] = []
+    dur_pat = ""
+    v = module_assign(an, "_TIMEOUT_DURATION")
+    if isinstance(v, ast.Call) and ast.unparse(v.func) == "re.compile" and len(v.args) == 1 and isinstance(v.args[0], ast.Constant):
+        dur_pat = v.args[0].value
+    f = find_func(an, "_analyze_simple_command")
+    if f is not None:
+        for n in ast.walk(f):
+            if isinstance(n, ast.BoolOp) and isinstance(n.op, ast.And) and len(n.values) == 2 and ast.unparse(n.values[1]) == "_TIMEOUT_DURATION.fullmatch(token)":
+                c = n.values[0]
+                if isinstance(c, ast.Compare) and ast.unparse(c.left) == "base" and isinstance(c.ops[0], ast.Eq) and isinstance(c.comparators[0], ast.Constant):
+                    dur_cmds.append(c.comparators[0].value)
+    if not dur_pat or not dur_cmds:
+        MISSING.append("wrapper DURATION test")
 
     # arithmetic attribute tuple in _find_cmdsubs_in_arith: `for attr in (...)`
     arith_attrs: list[str] | None = None
@@ -326,6 +347,10 @@ def gen_tables() -> str:
         "",
         "/-- `WRAPPER_COMMANDS` (core/allowlists.py), sorted -/",
         "def wrapperCommands : List String := " + lean_list(wrappers),
+        "",
+        "/-- wrappers whose first positional word is a DURATION, and the pattern it is recognised by (`_TIMEOUT_DURATION`) -/",
+        "def wrapperDurationCommands : List String := " + lean_list(dur_cmds),
+        "def wrapperDurationPattern : String := " + lean_str(dur_pat),
         "",
         "/-- `_WRAPPER_FLAGS_WITH_ARG` (core/analyzer.py): wrapper options whose argument is a separate word -/",
         "def wrapperFlagsWithArg : List (String × List String) := [" + ", ".join("(%s, %s)" % (lean_str(k), lean_list(xs).replace("\n", "")) for k, xs in wfa_pairs) + "]",
@@ -964,6 +989,83 @@ def gen_pycli() -> str:
     return "\n".join(txt)
 
 
+# ---------------------------------------------------------------- SafetyAnalyzer tables and visitor shape (C17)
+
+def gen_pyast() -> str:
+    m = parse_file("cli/python.py")
+    tabs = {}
+    for name in ("SAFE_MODULES", "DANGEROUS_MODULES", "DANGEROUS_BUILTINS", "DANGEROUS_ATTRS"):
+        v = module_assign(m, name)
+        xs = const_strs(v) if v is not None else None
+        if xs is None:
+            MISSING.append("python " + name)
+            xs = []
+        tabs[name] = sorted(set(xs))
+    cls = None
+    if m is not None:
+        for n in m.body:
+            if isinstance(n, ast.ClassDef) and n.name == "SafetyAnalyzer":
+                cls = n
+    methods = []      # (class name, ends in generic_visit, contains a return)
+    other_methods = []
+    if cls is None:
+        MISSING.append("python SafetyAnalyzer")
+    else:
+        for n in cls.body:
+            if isinstance(n, ast.Assign) and len(n.targets) == 1 and isinstance(n.targets[0], ast.Name) and n.targets[0].id in ("REFLECTION_ATTRS", "MODULE_ALIAS_ATTRS"):
+                xs = const_strs(n.value)
+                if xs is None:
+                    MISSING.append("python SafetyAnalyzer." + n.targets[0].id)
+                    xs = []
+                tabs[n.targets[0].id] = sorted(set(xs))
+            if isinstance(n, (ast.FunctionDef, ast.AsyncFunctionDef)):
+                if n.name.startswith("visit_"):
+                    last = n.body[-1]
+                    ends = isinstance(last, ast.Expr) and isinstance(last.value, ast.Call) and ast.unparse(last.value) == "self.generic_visit(node)"
+                    has_return = any(isinstance(x, ast.Return) for x in ast.walk(n))
+                    methods.append((n.name[len("visit_"):], ends, has_return))
+                elif n.name not in ("__init__", "_add"):
+                    # generic_visit / visit overridden, or any other helper: the model does not know it
+                    other_methods.append(n.name)
+        for k in ("REFLECTION_ATTRS", "MODULE_ALIAS_ATTRS"):
+            if k not in tabs:
+                MISSING.append("python SafetyAnalyzer." + k)
+                tabs[k] = []
+        bases = [ast.unparse(b) for b in cls.bases]
+        if bases != ["ast.NodeVisitor"]:
+            other_methods.append("bases:" + ",".join(bases))
+    methods.sort()
+    # how analyze_python_source drives the visitor
+    f = find_func(m, "analyze_python_source")
+    drive = []
+    if f is not None:
+        for n in ast.walk(f):
+            if isinstance(n, ast.Call):
+                drive.append(ast.unparse(n.func))
+    drive = sorted(set(drive))
+    txt = [
+        "-- GENERATED by harness/gen_tables.py from src/dippy/cli/python.py (SafetyAnalyzer). Do not edit.",
+        "namespace Dippy.Generated.PyAst",
+        "",
+        "def safeModules : List String := " + lean_list(tabs["SAFE_MODULES"]),
+        "def dangerousModules : List String := " + lean_list(tabs["DANGEROUS_MODULES"]),
+        "def dangerousBuiltins : List String := " + lean_list(tabs["DANGEROUS_BUILTINS"]),
+        "def dangerousAttrs : List String := " + lean_list(tabs["DANGEROUS_ATTRS"]),
+        "def reflectionAttrs : List String := " + lean_list(tabs["REFLECTION_ATTRS"]),
+        "def moduleAliasAttrs : List String := " + lean_list(tabs["MODULE_ALIAS_ATTRS"]),
+        "/-- the `visit_<Class>` methods of SafetyAnalyzer: (class, last statement is `self.generic_visit(node)`, contains a `return`) -/",
+        "def visitorMethods : List (String × Bool × Bool) := [" + ", ".join("(%s, %s, %s)" % (lean_str(a), "true" if b else "false", "true" if c else "false") for a, b, c in methods) + "]",
+        "/-- anything else defined in the class (an overridden `visit`/`generic_visit`, other bases …) -/",
+        "def visitorOther : List String := " + lean_list(sorted(other_methods)),
+        "/-- the calls `analyze_python_source` makes -/",
+        "def driverCalls : List String := " + lean_list(drive),
+        "",
+        "end Dippy.Generated.PyAst",
+        "",
+    ]
+    return "\n".join(txt)
+
+
 def main() -> int:
     changed = []
     files = {
@@ -976,6 +1078,7 @@ def main() -> int:
         "Statusline.lean": gen_statusline(),
         "Sql.lean": gen_sql(),
         "PyCli.lean": gen_pycli(),
+        "PyAst.lean": gen_pyast(),
     }
     miss = (
         "-- GENERATED. Tables the translator could not find where it expected them.\n"
